@@ -379,7 +379,24 @@ def run_history_2d(h, check_fresh=True, unpool=()):
     return recs, diffs
 
 
+LAM_HOSTS_2D = [('asls', {'diff_order': 2, 'max_iter': 4, 'num_eigens': [5, 5]}), ('arpls', {'diff_order': 2, 'max_iter': 4, 'num_eigens': [5, 4]}),
+                ('airpls', {'diff_order': [2, 1], 'max_iter': 4, 'num_eigens': [4, 5]}), ('asls', {'diff_order': 2, 'max_iter': 4, 'num_eigens': None}),
+                ('iasls', {'diff_order': 2, 'max_iter': 4}),
+                ('pspline_asls', {'num_knots': [4, 5], 'spline_degree': [2, 2], 'diff_order': [2, 2], 'max_iter': 4}),
+                ('pspline_arpls', {'num_knots': [4, 4], 'spline_degree': [3, 1], 'diff_order': [2, 2], 'max_iter': 4}),
+                ('mixture_model', {'num_knots': [4, 4], 'spline_degree': [2, 2], 'diff_order': [2, 2], 'max_iter': 4}),
+                ('pspline_iasls', {'num_knots': [4, 4], 'spline_degree': [2, 2], 'diff_order': 2, 'max_iter': 4})]
+W_HOSTS_2D = [('poly', {'poly_order': [2, 1], 'max_cross': None}), ('penalized_poly', {'poly_order': [1, 2], 'max_cross': 1, 'max_iter': 8}),
+              ('quant_reg', {'poly_order': [1, 1], 'max_cross': None, 'max_iter': 8}), ('modpoly', {'poly_order': 2, 'max_cross': None, 'max_iter': 8})]
+SHAPES_2D = [{'M': 12, 'N': 10, 'x': 'both'}, {'M': 9, 'N': 11, 'x': 'none'}, {'M': 10, 'N': 14, 'x': 'x'}]
+
+
 def enumerated_2d():
+    from .c03 import lam_family, weights_family
+    return _rejected_2d() + lam_family(2, LAM_HOSTS_2D, SHAPES_2D) + weights_family(2, W_HOSTS_2D, SHAPES_2D)
+
+
+def _rejected_2d():
     """Fixed grid: 2-D optimizers rejected inside / right after / before their delegated fit, on objects with a
     non-default output dtype, followed by ordinary probes."""
     import json
